@@ -113,6 +113,11 @@ __start__:
                 reset();
                 goto __force_restart__;
             }
+
+            // Если стартовый байт равен стоповому, маркер на пустой строке -
+            // это (повторный) старт, а не конец пакета.
+            if (sline_empty(&line))
+                goto __continue__;
         }
         
         if (c == ctx.GSTUFF_STOP) 
